@@ -65,9 +65,14 @@ class BaseValidator(object):
 
     def __exit__(self, exc_type, exc_val, exc_tb):
         """
-        Simply call :py:meth:`~.close()`.
+        Simply call :py:meth:`~.close()`. In case the ``with`` block already
+        ended with an error, a check failing at the end does not replace it.
         """
-        self.close()
+        try:
+            self.close()
+        except errors.CheckError:
+            if exc_type is None:
+                raise
 
     @property
     def cid(self):
